@@ -48,6 +48,7 @@ impl Rig {
             ctxs.push(ClientCtx::new(i, c.proto, h));
         }
         let world = World::new(ctxs, allow);
+        *world.broker.borrow_mut() = Some(net.broker.clone());
         Ok(Rig { net, world, app_tasks: vec![] })
     }
 
@@ -134,6 +135,9 @@ impl Rig {
     /// Client and connection tasks must not have ended unless their client was asked to stop.
     pub fn check_runs(&self, all_must_be_done: bool) -> Result<(), Outcome> {
         for (i, c) in self.net.clients.iter().enumerate() {
+            if c.client_result.borrow().is_some() {
+                self.world.clients[i].stopped.set(true);
+            }
             let stopped = self.world.clients[i].shutdown_requested.get();
             match &*c.client_result.borrow() {
                 Some(Err(RunErr::Unexpected(kind, msg))) => {
@@ -247,12 +251,14 @@ impl Rig {
                 }
             }
             Aux::NextItem(ch) => {
-                if w.allow_refused_claims {
-                    return Ok(());
-                }
                 let cookie = cc.rcv[ch as usize].with(|e| (matches!(e, RcvEnd::Est(_)), e.cookie().0));
                 if let Some((true, cookie)) = cookie {
                     let board = w.board.borrow();
+                    // an end that was bound more than once can be closed under its claimant by
+                    // the duplicate (the cookie is Copy); then sent items may be dropped
+                    if board.chans.get(&cookie).map(|i| i.binds > 1 || i.claim_attempts > 1).unwrap_or(false) {
+                        return Ok(());
+                    }
                     let sent = board.sent.get(&cookie).copied().unwrap_or(0);
                     let received = board.received.get(&cookie).copied().unwrap_or(0);
                     let senders_alive = board.senders_of.get(&cookie).map(|s| s.iter().all(|c| alive(*c))).unwrap_or(true);
